@@ -51,6 +51,8 @@ def pick_size(rng, B, pl, allow_empty=True, big=True):
 # contents whose SHA-1 / SHA-256 digest happens to be valid UTF-8 (found by search): a bencode
 # decoder that returns text for valid UTF-8 hands such a piece hash / merkle root back as str
 UTF8_DIGEST = [b"content-95049", b"c2-89753655"]
+# two pieces of 16 KiB whose merkle ROOT is valid UTF-8: the key of its piece-layers entry
+UTF8_ROOT_2PIECES = b"A" * 16384 + b"t-676778826"
 
 
 def pick_blob(rng, size):
